@@ -11,12 +11,16 @@ use vh_core::gen::*;
 use vh_core::modint::*;
 use vh_core::{ensure, ensure_eq};
 
+mod extra;
+#[allow(non_camel_case_types)]
+mod bigzoo;
+
 fn hexs(v: &BigUint) -> String {
     format!("0x{:x}", v)
 }
 
 /// result must be the canonical Montgomery encoding of `want`
-fn expect<T: MontConfig<N>, const N: usize>(c: &FieldCtx, got: &F<T, N>, want: &BigUint, what: &str) -> R {
+pub(crate) fn expect<T: MontConfig<N>, const N: usize>(c: &FieldCtx, got: &F<T, N>, want: &BigUint, what: &str) -> R {
     let m = c.to_mont(want);
     if (got.0).0[..] != m[..] {
         let (v, canon) = fp_to_big::<T, N>(c, got);
@@ -38,19 +42,12 @@ fn expect<T: MontConfig<N>, const N: usize>(c: &FieldCtx, got: &F<T, N>, want: &
 fn binops<T: MontConfig<N>, const N: usize>(c: &FieldCtx, t: &mut Tape<'_>, o: &mut Obs) -> R {
     let p = &c.p;
     let (a, av, ac) = edge_fp::<T, N>(t, c);
-    let (b, bv, bc) = if t.chance(1, 8) {
-        // correlated second operand: a, -a, a^-1-ish neighbours
-        match t.below(3) {
-            0 => (a, av.clone(), "same"),
-            1 => {
-                let v = negm(&av, p);
-                (fp_from_big::<T, N>(c, &v), v, "neg")
-            },
-            _ => {
-                let v = (p + p - &av - 1u32) % p;
-                (fp_from_big::<T, N>(c, &v), v, "neg-1")
-            },
-        }
+    let correlated = t.chance(1, 8);
+    let (b, bv, bc) = if correlated {
+        // correlated second operand: a, -a, -a-1, a^-1, and operands whose Montgomery limbs add up to p+d / 2^(64N)+d
+        // or differ from a's by one (in one limb) - see extra::correlated_second
+        let (v, cls) = extra::correlated_second(t, c, &av);
+        (fp_from_big::<T, N>(c, &v), v, cls)
     } else {
         edge_fp::<T, N>(t, c)
     };
@@ -58,6 +55,7 @@ fn binops<T: MontConfig<N>, const N: usize>(c: &FieldCtx, t: &mut Tape<'_>, o: &
     let nontriv = av > BigUint::one() && bv > BigUint::one() && (&av * &bv >= *p || &av + &bv >= *p);
     o.nt(nontriv);
     o.class(ac);
+    o.class_if(correlated, bc);
     o.class_if(&av + &bv >= *p, "add-wraps");
     o.class_if(av < bv, "sub-borrows");
     {
@@ -398,10 +396,12 @@ fn conv<T: MontConfig<N>, const N: usize>(c: &FieldCtx, t: &mut Tape<'_>, o: &mu
                 1 => p + BigUint::from(t.below(3)) - 1u32,
                 _ => big_below(t, p),
             };
-            let neg = t.bool() && !mag.is_zero();
+            // "-0" is a decimal spelling of 0 as well
+            let neg = t.bool();
             let s = format!("{}{}", if neg { "-" } else { "" }, mag);
             o.show(|| format!("{}: from_str({:?})", c.name, s));
-            o.nt(mag >= *p || neg);
+            o.nt(mag >= *p || (neg && !mag.is_zero()));
+            o.class_if(neg && mag.is_zero(), "minus-zero-string");
             let want = if neg { negm(&(&mag % p), p) } else { &mag % p };
             match F::<T, N>::from_str(&s) {
                 Ok(x) => expect(c, &x, &want, "from_str")?,
@@ -460,6 +460,12 @@ fn field_rels<T: MontConfig<N>, const N: usize>(out: &mut Vec<Rel>, name: &str, 
     out.push(Rel::new(format!("batch/{}", name), q(300), 42 * (N + 4) + 16, move |t, o| batch::<T, N>(&cc, t, o)).shrink_iters(4096));
     let cc = c.clone();
     out.push(Rel::new(format!("conv/{}", name), q(2400), 6 * N + 32, move |t, o| conv::<T, N>(&cc, t, o)));
+    let cc = c.clone();
+    out.push(Rel::new(format!("spellings/{}", name), q(300), 6 * N + 40, move |t, o| extra::spellings::<T, N>(&cc, t, o)));
+    let cc = c.clone();
+    out.push(Rel::new(format!("sum_of_products-long/{}", name), q(120), 64 * 2 * (N + 4) + 8, move |t, o| extra::sop_large::<T, N>(&cc, t, o)).shrink_iters(2048));
+    let cc = c.clone();
+    out.push(Rel::new(format!("rand/{}", name), q(300), 5 * N + 24, move |t, o| extra::rand_rel::<T, N>(&cc, t, o)));
 }
 
 /// exhaustive: all ordered pairs of a tiny field through binops in exact mode is not expressible through
@@ -519,6 +525,13 @@ fn relations(tier: Tier) -> Vec<Rel> {
         }};
     }
     vh_core::for_each_tiny_field!(tiny);
+    // more than 13 limbs (derived and hand-written) and a 13-limb hand-written field: see gen_bigzoo.py
+    macro_rules! bigf {
+        ($ty:ty, $cfg:ty, $n:expr, $name:expr) => {
+            field_rels::<$cfg, $n>(&mut out, $name, tier, 1);
+        };
+    }
+    crate::for_each_big_field!(bigf);
     // shipped fields
     macro_rules! shipped {
         ($cfg:ty, $n:expr, $name:expr) => {
@@ -552,10 +565,12 @@ fn relations(tier: Tier) -> Vec<Rel> {
 fn main() {
     vh_core::engine::main(PropSpec {
         id: "C01",
-        rule: "Operands come from an edge-biased generator decoded from a proptest tape (0, 1, p-1, (p±1)/2, R, R², 2^k±1, values whose integer or Montgomery limbs are 0/all-ones/powers of two, values within 2^16 of p, uniform), built through raw Montgomery limbs; over every field of the zoo (74 derived + 16 hand-written MontConfig with trait-default arithmetic, 1..13 limbs) and 21 shipped fields; tiny fields are enumerated exhaustively. Every result is compared as raw Montgomery limbs with BigUint arithmetic (which also proves canonicity). A case is non-trivial when an operand is outside {0,1} and the exact integer result is >= p (a reduction happened) – for conversions: the input is >= p, negative or longer than the modulus; distinct = distinct decoded choice sequences.",
+        rule: "Operands come from an edge-biased generator decoded from a proptest tape (0, 1, p-1, (p±1)/2, R, R², 2^k±1, values whose integer or Montgomery limbs are 0/all-ones/powers of two, values within 2^16 of p, uniform), built through raw Montgomery limbs; second operands are correlated 1/8 (spellings: 1/4) of the time: a, -a, -a-1, a^-1, canonical sum p±1, Montgomery limbs adding up to p+d / p+(edge word in any limb) / 2^(64N)+d (d in -2..2), Montgomery limbs differing by one (in one limb). Fields: every field of the zoo (derived + hand-written MontConfig with trait-default arithmetic, 1..13 limbs, incl. top limb exactly 2^63 and 2^63-1), 8 fields beyond the largest alias (derived 14/16/24/25 limbs, hand-written 13/16/24/25 limbs, with and without spare bits) and 21 shipped fields; tiny fields are enumerated exhaustively. Relations: binops (operators by value/by reference, assigning, in-place), spellings (every other operator form: `a op &b`, `a op &mut b`, `op= b`, `op= &mut b`, `&a / &b`; Sum/Product over owned and borrowed iterators incl. the empty one; From/Into BigInt; pow with BigInt/array exponents; the Field methods that are trivial on a prime field; constants; Ord), pow / pow_with_table, sum_of_products for M in {1..6,8,11} and sum_of_products-long for M in {0,7,9,12,16,30,44,64} (longer than one chunk of the interleaved path also for fields with many spare bits; all operands / all Montgomery forms within 2 of p), batch inversion + iterator folds, conversions (from_bigint on p±limb offsets and multiples of p, BigUint, bytes mod order, machine integers, decimal strings incl. -0, from_random_bytes), rand (sampling through a scripted generator whose first candidates sit on the rejection boundary: p, p+small, 2^bits-1, junk in the unused top bits; only canonicity is demanded). Every result is compared as raw Montgomery limbs with BigUint arithmetic (which also proves canonicity). A case is non-trivial when an operand is outside {0,1} and the exact integer result is >= p (a reduction happened) – for conversions: the input is >= p, negative or longer than the modulus; for rand: at least one scripted candidate; distinct = distinct decoded choice sequences.",
         assumptions: &[
             "num-bigint arithmetic is correct (oracle)",
             "zoo configurations of > 64 bits declare the smallest quadratic non-residue as `generator` (p-1 is not factored); C01 does not depend on it",
+            "rand(): nothing about the distribution is demanded, only that the element handed back is canonical and that sampling terminates without panic",
+            "From<BigInt<N>> for Fp is only given integers below p (it is documented to unwrap), division only non-zero divisors (documented panic)",
         ],
         relations,
     })
